@@ -3,6 +3,11 @@
 package tree
 
 import (
+	"fmt"
+	"runtime/debug"
+	"strings"
+
+	pa "github.com/benoitkugler/webrender/css/parser"
 	pr "github.com/benoitkugler/webrender/css/properties"
 	"github.com/benoitkugler/webrender/css/selector"
 )
@@ -266,3 +271,89 @@ func vInitialFontWeight() (int, []string) {
 //@   modifies anything
 //@   return 6 ensures[percentage] typeIs(result, pr.DimOrS) && result.(pr.DimOrS).S == "" && result.(pr.DimOrS).Value == _value.(pr.DimOrS).Value * parentFontSize / 100
 //@   call length_#1 assert arg0 == computer && arg1 == _value.(pr.DimOrS) && arg2 == parentFontSize && arg3
+
+// ---------------------------------------------------------------------------
+// bounded stand-in (C08, C01): var() substitution terminates and substitutes. Termination of
+// resolveVar has no measure expressible in the contract language (the recursion follows
+// the variable graph, guarded by a visiting list). vResolveVar enumerates EVERY assignment of
+// three custom properties --a, --b, --c to one of 15 value forms (a literal; var(--x),
+// var(--x, 2px), f(var(--x)) and f(g(var(--x))) for x in {a, b, c}: all graphs incl. self
+// loops and longer cycles) and two referencing values, and checks that resolveVar returns,
+// leaves no var() at any depth, and on acyclic graphs equals plain textual substitution.
+// A stack overflow is fatal to the process: the check then reports "enumerator did not run".
+func vResolveVar() (int, []string) {
+	debug.SetMaxStack(64 << 20)
+	names := []string{"a", "b", "c"}
+	var forms []string
+	forms = append(forms, "1px")
+	for _, x := range names {
+		forms = append(forms, "var(--"+x+")", "var(--"+x+", 2px)", "f(var(--"+x+"))", "f(g(var(--"+x+")))")
+	}
+	tok := func(src string) []pa.Token { return pa.RemoveWhitespace(pa.Tokenize([]byte(src), true)) }
+	// dependency of a form: the variable it refers to, or ""
+	dep := func(form string) string {
+		if i := strings.Index(form, "var(--"); i >= 0 {
+			return form[i+6 : i+7]
+		}
+		return ""
+	}
+	var hasVar func(ts []pa.Token) bool
+	hasVar = func(ts []pa.Token) bool {
+		for _, t := range ts {
+			if fb, ok := t.(pa.FunctionBlock); ok {
+				if strings.EqualFold(fb.Name, "var") || hasVar(fb.Arguments) {
+					return true
+				}
+			}
+		}
+		return false
+	}
+	n, fails := 0, []string{}
+	for _, fa := range forms {
+		for _, fb := range forms {
+			for _, fc := range forms {
+				val := map[string]string{"a": fa, "b": fb, "c": fc}
+				computed := map[string]pr.RawTokens{}
+				for k, v := range val {
+					computed["--"+k] = tok(v)
+				}
+				// acyclic from a ?
+				acyclic, cur, seen := true, "a", map[string]bool{}
+				for cur != "" {
+					if seen[cur] {
+						acyclic = false
+						break
+					}
+					seen[cur] = true
+					cur = dep(val[cur])
+				}
+				for _, ref := range []string{"var(--a)", "f(g(var(--a)))"} {
+					n++
+					got := resolveVar(computed, tok(ref)[0])
+					if hasVar(got) {
+						if len(fails) < 5 {
+							fails = append(fails, fmt.Sprintf("--a:%s --b:%s --c:%s  %s -> %s: var() left", fa, fb, fc, ref, pa.Serialize(got)))
+						}
+						continue
+					}
+					if acyclic {
+						// textual substitution (terminates on acyclic graphs)
+						want := ref
+						for strings.Contains(want, "var(--") {
+							i := strings.Index(want, "var(--")
+							j := i + strings.Index(want[i:], ")")
+							want = want[:i] + val[want[i+6:i+7]] + want[j+1:]
+						}
+						if g, w := pa.Serialize(got), pa.Serialize(tok(want)); strings.ReplaceAll(g, " ", "") != strings.ReplaceAll(w, " ", "") && len(fails) < 5 {
+							fails = append(fails, fmt.Sprintf("--a:%s --b:%s --c:%s  %s -> %s, want %s", fa, fb, fc, ref, g, w))
+						}
+					}
+				}
+			}
+		}
+	}
+	return n, fails
+}
+
+//@ bounded vResolveVar var() substitution over every assignment of 3 custom properties to 13 value forms (all reference graphs incl. cycles) x 2 referencing values: terminates, leaves no var(), equals textual substitution when acyclic
+//@   props C08 C01
